@@ -346,6 +346,38 @@ func runC01(c *ctx) {
 			}
 		}
 	}
+	// the two OPENING plies: slides and every placement kind tried at ply 0 and ply 1 of real games (the stone on the board at
+	// ply 1 is the mover's own colour: a slide of it is illegal only because of the opening rule), and on constructed boards whose
+	// ply counter is 0 or 1 although stones are on the board
+	for size := 3; size <= 8; size++ {
+		p0 := tak.New(tak.Config{Size: size})
+		for k := 0; k < 3*c.scale; k++ {
+			x, y := r.Intn(size), r.Intn(size)
+			p1, err := p0.Move(tak.Move{X: int8(x), Y: int8(y), Type: tak.PlaceFlat})
+			if err != nil {
+				continue
+			}
+			for _, p := range []*tak.Position{p0, p1} {
+				for _, t := range []tak.MoveType{tak.SlideLeft, tak.SlideRight, tak.SlideUp, tak.SlideDown} {
+					emitC01(c, p, tak.Move{X: int8(x), Y: int8(y), Type: t, Slides: tak.MkSlides(1)})
+				}
+				for _, t := range []tak.MoveType{tak.PlaceFlat, tak.PlaceStanding, tak.PlaceCapstone} {
+					emitC01(c, p, tak.Move{X: int8(r.Intn(size)), Y: int8(r.Intn(size)), Type: t})
+					emitC01(c, p, tak.Move{X: int8(x), Y: int8(y), Type: t})
+				}
+			}
+		}
+		for k := 0; k < 4*c.scale; k++ {
+			_, board, _ := constructedBoard(r, size, 4, 0.3+0.4*r.Float64())
+			cfg := tak.Config{Size: size}
+			fitReserves(r, &cfg, board)
+			q, err := tak.FromSquares(cfg, board, r.Intn(2))
+			if err != nil {
+				continue
+			}
+			c01Position(c, q, 2, 6)
+		}
+	}
 	// search-like walks through reused per-ply buffers (stack-heavy middle games)
 	for g := 0; g < 30*c.scale; g++ {
 		size := 3 + g%6
